@@ -28,6 +28,7 @@ type LoopSpec struct {
 	Modifies   []string
 	HasMod     bool
 	Ghosts     []GhostLet // evaluated when the loop is first reached (before the havoc)
+	IterGhosts []GhostLet // `loop k iter name := e`: evaluated at the head of an arbitrary iteration (after the invariants are assumed)
 	NoExit     bool       // the loop may only be left by exhaustion of its range / failing condition
 }
 
@@ -42,21 +43,22 @@ type PointClause struct {
 }
 
 type FuncContract struct {
-	Key      string // "(*BaseStore).recalculateReplicationMax", "SaveSnapshot", "(*BaseStore).InitBaseStore$1"
-	PkgPath  string // package the contract file belongs to ("" for prelude)
-	File     string
-	Line     int
-	Requires []*Clause
-	Ensures  []*Clause
-	Modifies []string
-	HasMod   bool
-	Loops    map[string]*LoopSpec
-	Ghosts   []GhostLet
-	Wraps    map[string]bool
-	Props    []string
-	Points   []PointClause // assert/assume at program points
-	Trusted  bool          // contract is assumed, body not verified
-	Flags    map[string]bool
+	Key         string // "(*BaseStore).recalculateReplicationMax", "SaveSnapshot", "(*BaseStore).InitBaseStore$1"
+	PkgPath     string // package the contract file belongs to ("" for prelude)
+	File        string
+	Line        int
+	Requires    []*Clause
+	Ensures     []*Clause
+	Modifies    []string
+	HasMod      bool
+	Loops       map[string]*LoopSpec
+	Ghosts      []GhostLet
+	Wraps       map[string]bool
+	Props       []string
+	SafetyProps []string      // `safety Cnn ...`
+	Points      []PointClause // assert/assume at program points
+	Trusted     bool          // contract is assumed, body not verified
+	Flags       map[string]bool
 
 	// extern only
 	Extern    bool
@@ -435,6 +437,16 @@ func (cs *Contracts) loadFile(file, pkgPath string) error {
 					return fmt.Errorf("%s:%d: %v", rl.file, rl.line, err)
 				}
 				ls.Ghosts = append(ls.Ghosts, GhostLet{strings.TrimSpace(r3[:i]), e})
+			case "iter":
+				i := strings.Index(r3, ":=")
+				if i < 0 {
+					return fmt.Errorf("%s:%d: loop iter needs :=", rl.file, rl.line)
+				}
+				e, err := parseSpecExpr(r3[i+2:])
+				if err != nil {
+					return fmt.Errorf("%s:%d: %v", rl.file, rl.line, err)
+				}
+				ls.IterGhosts = append(ls.IterGhosts, GhostLet{strings.TrimSpace(r3[:i]), e})
 			default:
 				return fmt.Errorf("%s:%d: loop clause %q", rl.file, rl.line, k2)
 			}
@@ -457,6 +469,13 @@ func (cs *Contracts) loadFile(file, pkgPath string) error {
 				return fmt.Errorf("%s:%d: props outside a func", rl.file, rl.line)
 			}
 			cur.Props = append(cur.Props, strings.Fields(rest)...)
+		case "safety":
+			// `safety Cnn ...`: the run-time safety obligations of this unit (nil, bounds, make, conversions,
+			// type assertions) count for these properties only (default: for every property of the unit)
+			if cur == nil {
+				return fmt.Errorf("%s:%d: safety outside a func", rl.file, rl.line)
+			}
+			cur.SafetyProps = append(cur.SafetyProps, strings.Fields(rest)...)
 		case "trusted":
 			if cur == nil {
 				return fmt.Errorf("%s:%d: trusted outside a func", rl.file, rl.line)
